@@ -766,6 +766,12 @@ class Interp:
             try:
                 cur = fr.lookup(n)
             except PyRaise:
+                if n in spec.shapes and n in names:
+                    # first assigned inside the loop, but READ by later iterations before they assign it (a "current
+                    # row" kind of variable): LoopSpec.shapes names its shape, the arbitrary iteration starts with a
+                    # value of that shape and the invariant says what it is.  (In the very first iteration CPython has
+                    # the name unbound; a read there would be an UnboundLocalError, which this does not report.)
+                    fr.locals[n] = spec.shapes[n].fresh(st, n)
                 continue  # first assigned inside the loop
             if isinstance(cur, ModelObj):
                 if hasattr(cur, "py_havoc"):
@@ -1485,6 +1491,12 @@ class Interp:
             return self.obj_getattr(st, obj, name)
         if isinstance(obj, SOpaque):
             return self.task.opaque_getattr(self, st, obj, name)
+        if isinstance(obj, ModelObj) and hasattr(obj, "py_getattr"):
+            # a model object with data attributes (e.g. the model of a widget built by the code under verification):
+            # `py_getattr(ip, st, name)` answers them; NotImplemented falls through to "a method of the model"
+            r = obj.py_getattr(self, st, name)
+            if r is not NotImplemented:
+                return r
         if getattr(obj, "is_text", False) or isinstance(obj, ModelObj):
             return Method(obj, name)
         if isinstance(obj, (LRef, SSlice, SSeq, DRef, SRange)):
@@ -1614,6 +1626,8 @@ class Interp:
             return
         if isinstance(obj, SOpaque):
             return self.task.opaque_setattr(self, st, obj, name, value)
+        if isinstance(obj, ModelObj) and hasattr(obj, "py_setattr"):
+            return obj.py_setattr(self, st, name, value)  # attribute store on a model object: the model decides
         raise Unsupported(f"attribute assignment on {type(obj).__name__}")
 
     def eval_index(self, st, sl, fr):
